@@ -4,58 +4,28 @@ import (
 	"fmt"
 	"testing"
 
-	"github.com/nyaruka/goflow/flows/definition"
-	"github.com/nyaruka/goflow/flows/definition/migrations"
+	"verif/internal/fw"
 )
 
-func countPaths(v any) int {
-	n := 1
-	switch t := v.(type) {
-	case map[string]any:
-		for _, e := range t {
-			n += countPaths(e)
-		}
-	case []any:
-		for _, e := range t {
-			n += countPaths(e)
-		}
-	}
-	return n
-}
-
-func TestProbeCorpus(t *testing.T) {
-	c := corpus()
-	tot, totBytes := 0, 0
-	ok := 0
-	for _, s := range c {
-		v, _ := decodeGeneric(s.Data)
-		np := countPaths(v)
-		tot += np
-		totBytes += len(s.Data)
-		var st string
-		func() {
-			defer func() {
-				if r := recover(); r != nil {
-					st = fmt.Sprint("PANIC ", r)
+func TestProbeDial(t *testing.T) {
+	n := 0
+	for i := 0; i < 3000; i++ {
+		r := fw.NewRand(1, "C16", i)
+		m := genFlow(r, false)
+		for _, nd := range m.Nodes {
+			if nd.Router == nil {
+				continue
+			}
+			if w, ok := nd.Router["wait"].(map[string]any); ok && w["type"] == "dial" {
+				ph := w["phone"].(tpl)
+				if ph.Webhook {
+					n++
+					if n < 5 {
+						fmt.Println(i, ph.Old, "=>", ph.New)
+					}
 				}
-			}()
-			out, err := migrations.MigrateToLatest(s.Data, migrations.DefaultConfig)
-			if err != nil {
-				st = "migrate: " + err.Error()
-				return
 			}
-			_, err = definition.ReadFlow(out, nil)
-			if err != nil {
-				st = "read: " + err.Error()
-				return
-			}
-			st = "ok"
-			ok++
-		}()
-		if len(st) > 150 {
-			st = st[:150]
 		}
-		fmt.Printf("%-90s legacy=%v bytes=%d paths=%d %s\n", s.Name, s.Legacy, len(s.Data), np, st)
 	}
-	fmt.Println("seeds", len(c), "ok", ok, "paths", tot, "bytes", totBytes)
+	fmt.Println("dial+webhook", n)
 }
